@@ -261,6 +261,9 @@ func exploreOnce(prop string, sc *Scenario, cfg ExploreCfg, res *Result, sites m
 		opts.Monitor = true
 		opts.AccessPoints = true
 	}
+	if cfg.Races {
+		opts.Monitor = true
+	}
 	if opts.AccessPoints {
 		opts.Sites = map[int32]bool{}
 		for k := range sites {
